@@ -19,7 +19,8 @@ PROP = "C07"
 LEVEL = "exploration"
 
 TRUE_COLD_EVERY = 10
-CONFIGS = ["shared-pandas", "separate-pandas", "polars-mixed", "polars-eager-only", "shared-polars", "mixed", "models-cold"]
+CONFIGS = ["shared-pandas", "separate-pandas", "polars-mixed", "polars-eager-only", "shared-polars", "mixed", "models-cold",
+           "shared-components"]
 
 
 def plan(tier):
@@ -101,6 +102,18 @@ def gen_workload(rng, idx):
             g, spec = _spec(rng, "polars")
             subjects.append(spec)
             add_call(g, i, "polars", pl_lazy=(i % 2 == 0))
+    elif cfg == "shared-components":
+        # two *different* schema objects that reuse the same Column objects (and so the same Check and dtype instances), the
+        # way users define a column once and put it into several schemas; container-level options differ
+        backend = rng.choice(["pandas", "pandas", "polars"])
+        g, spec = _spec(rng, backend, kind="dfs", force=SHARED_FORCE)
+        subjects.append(spec)
+        subjects.append({"backend": backend, "kind": "dfs", "share_columns_of": 0,
+                         "strict": rng.choice([False, False, True]), "coerce": rng.random() < 0.5, "ordered": False,
+                         "name": "S2", "columns": spec["columns"], "index": None, "checks": [], "parsers": [], "dtype": None,
+                         "unique": None, "add_missing_columns": False, "drop_invalid_rows": False})
+        for i in range(n):
+            add_call(g, i % 2, backend, pl_lazy=(False if backend == "polars" else None))
     elif cfg == "models-cold":
         backend = rng.choice(["pandas", "polars"])
         g, spec = _spec(rng, backend, kind="model", force=("coerce",))
@@ -210,7 +223,16 @@ def _make_warm():
 
 
 def build_objects(wl):
-    subs = [world.build_schema(s) for s in wl["subjects"]]
+    subs = []
+    for s in wl["subjects"]:
+        if "share_columns_of" in s:
+            base = subs[s["share_columns_of"]]
+            import pandera as pa
+            import pandera.polars as pap
+            mod = pap if s["backend"] == "polars" else pa
+            subs.append(mod.DataFrameSchema(columns=dict(base.columns), strict=s["strict"], coerce=s["coerce"], name=s["name"]))
+        else:
+            subs.append(world.build_schema(s))
     frames = []
     for c in wl["calls"]:
         spec = wl["subjects"][c["subject"]]
@@ -445,6 +467,8 @@ def workload_tags(wl):
         t.add("ambient-config-context")
     if wl.get("true_cold"):
         t.add("true-cold-process")
+    if any("share_columns_of" in s for s in wl["subjects"]):
+        t.add("shared-column-objects")
     if any(s["kind"] == "model" for s in wl["subjects"]):
         t.add("model")
     return sorted(t)
